@@ -13,7 +13,6 @@ import (
 	"strings"
 	"sync"
 	"sync/atomic"
-	"time"
 
 	"github.com/ohler55/slip"
 	"github.com/ohler55/slip/pkg/gi"
@@ -47,6 +46,7 @@ func init() {
 			"exit-crossed>=1-form", "exit-crossed>=2-forms", "cleanup-on-return", "cleanup-on-go", "cleanup-on-error",
 			"mutex-on-exit-path", "stream-on-exit-path", "go-backward", "go-forward", "return-shadowed-block",
 			"error-handled", "error-unhandled", "exit-on-later-iteration", "exit-through-function", "cleanup-nested>=2",
+			"mutex-checked", "stream-checked", "nontrivial-passed",
 		},
 		Bound:         bound,
 		Selftest:      selftest,
@@ -406,7 +406,10 @@ func bound(tier string) string {
 	s := fmt.Sprintf("%d context kinds (%s); complete to nesting depth %d with the slot at every position of every level and all exit kinds "+
 		"(normal, return-from a/b, return, return-from function, go forward/backward to every visible tagbody, 4 error classes)",
 		len(kinds), kindNames(), c.fullDepth)
-	if c.fullDepth < c.innerDepth {
+	if c.fullDepth+1 == c.innerDepth {
+		s += fmt.Sprintf("; depth %d with the outer levels at their canonical position (middle / protected form / then-branch), the innermost level at every position, error classes %v; symbol-tag tagbodies only in the complete depths",
+			c.innerDepth, c.deepErrs)
+	} else if c.fullDepth < c.innerDepth {
 		s += fmt.Sprintf("; depth %d..%d with the outer levels at their canonical position (middle / protected form / then-branch), the innermost level at every position, error classes %v",
 			c.fullDepth+1, c.innerDepth, c.deepErrs)
 	}
@@ -665,6 +668,7 @@ type expectation struct {
 	out        eval.Outcome
 	mutexHeld  []bool // per level
 	streamOpen bool
+	streamMade map[string]bool // with-open-file variables whose body was entered
 }
 
 func runRef(b *built, m eval.Mutations) expectation {
@@ -681,8 +685,10 @@ func runRef(b *built, m eval.Mutations) expectation {
 	for i := range mx {
 		ex.mutexHeld[i] = mx[i].Locked
 	}
+	ex.streamMade = map[string]bool{}
 	for _, s := range in.Streams {
 		ex.streamOpen = ex.streamOpen || s.Open
+		ex.streamMade[s.Name] = true
 	}
 	return ex
 }
@@ -697,19 +703,6 @@ func exec(spec string) (res engine.Result) {
 	if strings.HasPrefix(spec, "raw:") { // development aid: run Lisp text as is
 		v, tr, err := lisp.Run(spec[4:])
 		res.Outcome = "val=" + v + " trace=" + strings.Join(tr, ",") + " err=" + err.String()
-		return
-	}
-	if strings.HasPrefix(spec, "time:") { // development aid: wall time of 2000 executions
-		p, perr := parseSpec(spec[5:])
-		if perr != nil {
-			res.Fail("harness:bad-spec", spec)
-			return
-		}
-		t0 := time.Now()
-		for i := 0; i < 2000; i++ {
-			execProgram(p, true, true)
-		}
-		res.Outcome = fmt.Sprintf("%v per case", time.Since(t0)/2000)
 		return
 	}
 	p, perr := parseSpec(spec)
@@ -885,6 +878,7 @@ func execProgram(p *program, reduce, resources bool) (res engine.Result) {
 				res.Fail("harness:mutex-variable-lost", src)
 				continue
 			}
+			res.Hit("mutex-checked")
 			free := (*sync.Mutex)(m).TryLock()
 			if free {
 				(*sync.Mutex)(m).Unlock()
@@ -896,8 +890,14 @@ func execProgram(p *program, reduce, resources bool) (res engine.Result) {
 		case "with-open-file":
 			fs, _ := scope.Get(slip.Symbol(lv("keep", i))).(*slip.FileStream)
 			if fs == nil {
-				continue // the body was never entered (compared through the trace)
+				// the body was never entered (that is compared through the trace); if the trace
+				// agreed with the reference and the reference did enter it, the capture is broken
+				if ex.streamMade[string(lv("fs", i))] && len(res.Failures) == 0 {
+					res.Fail("harness:stream-not-captured", src)
+				}
+				continue
 			}
+			res.Hit("stream-checked")
 			_, serr := (*os.File)(fs).Stat()
 			closed := serr != nil && errors.Is(serr, os.ErrClosed)
 			if !closed {
@@ -910,6 +910,9 @@ func execProgram(p *program, reduce, resources bool) (res engine.Result) {
 		}
 	}
 	res.Outcome = o.digest()
+	if res.Nontrivial && len(res.Failures) == 0 {
+		res.Hit("nontrivial-passed") // S9: what is left live beside the listed findings
+	}
 	return
 }
 
